@@ -29,6 +29,14 @@ Local Open Scope nat_scope.
 
 Inductive hact := HReply (p : option (list byte)) | HDefer.
 
+(* a new backend: datagram socket, stream, none (assign(NULL) / set_property("", NULL)) *)
+Inductive rkind := KDgram | KStream | KNone.
+(* through mpt_connection_assign (socket descriptor), mpt_connection_open (target string), or the property "" of the object
+   (value converts to a socket descriptor -> assign, to a string -> open) *)
+Inductive rhow := HAssign | HOpen | HPropSock | HPropStr.
+(* what convert() of the object is asked for *)
+Inductive ctype := TIn | TFmt | TMeta | TSock | TObj | TOut | TLog | TBad.
+
 Inductive cop :=
 | CTx (m : list byte)                      (* the peer writes one message *)
 | CDp (acts : list hact) (code : Z)        (* next(POLLIN)..., dispatch(handler): the handler performs acts, returns code *)
@@ -38,7 +46,16 @@ Inductive cop :=
 | CPs (pay : list byte)                    (* await + push(pay) *)
 | CPe                                      (* push(0,0) *)
 | CSy                                      (* sync(0) *)
-| CCl.                                     (* unref (last reference) *)
+| CCl                                      (* unref (the last reference: mpt_connection_fini) *)
+(* round 3: the rest of the object of mpt_output_remote() *)
+| CAw0 (pay : list byte)                   (* await(NULL, 0) + push(pay) + push(0,0): the default handler of mpt_command_reserve *)
+| CRf                                      (* addref *)
+| CNo                                      (* next(POLLOUT) *)
+| CNh                                      (* next(POLLHUP) *)
+| CLg (msg : list byte)                    (* remoteLog = mpt_output_vlog: push(header), push(text)..., push(0,0); msg = all pushed bytes *)
+| CRs (k : rkind) (h : rhow)               (* the connection gets another backend: mpt_connection_assign / _open / set_property("") *)
+| CCv (t : ctype)                          (* remoteConv *)
+| CGp (color : bool).                      (* remoteProperty: "" / "color" *)
 
 (* MPT_STRUCT(command): id, handler registered (the harness' waiter with this tag); None = slot free *)
 Record went := mkwe { weid : N; wetag : option nat }.
@@ -54,6 +71,12 @@ Inductive cret :=
 | RPe (p2 : Z)
 | RSy (r : Z)
 | RCl
+| RRf (n : nat)
+| RNx (v : option Z)          (* value of next(POLLOUT / POLLHUP); None = open stream: mpt_stream_poll, not compared *)
+| RLg (z : Z)
+| RRs (z : Z)
+| RCv (ret : option Z) (part : nat)   (* ret: None = own type id, Some 1 = TypeUnixSocket, Some e = error; part: 0 none 1 in 2 obj 3 out 4 log 5 fmt 6 fd 7 no fd *)
+| RGp (z : Z) (name : nat)    (* 0 "output", 1 "color" *)
 | RX.
 
 Record cres := mkcr {
@@ -172,32 +195,34 @@ Record conn := mkcn {
   ccur : bool;
   cntag : nat;
   cclosed : bool;
-  creqs : list (nat * list byte)  (* ghost: (request number, id bytes) of every request handed to the reply context *)
+  creqs : list (nat * list byte); (* ghost: (request number, id bytes) of every request handed to the reply context *)
+  crefs : nat;                    (* references of the object beyond the first *)
+  cgone : bool                    (* no backend: datagram socket hung up (next(POLLHUP)), assign(NULL) *)
 }.
 
 Definition set_tab (c : conn) (t : list went) : conn :=
   mkcn (chas c) (cdg c) (cidl c) t (ctbuf c) (ccid c) (cact c) (cout c) (csock c) (cload c) (ccur c)
-       (cntag c) (cclosed c) (creqs c).
+       (cntag c) (cclosed c) (creqs c) (crefs c) (cgone c).
 Definition set_in (c : conn) (sock load : list (list byte)) (cur : bool) : conn :=
   mkcn (chas c) (cdg c) (cidl c) (ctab c) (ctbuf c) (ccid c) (cact c) (cout c) sock load cur
-       (cntag c) (cclosed c) (creqs c).
+       (cntag c) (cclosed c) (creqs c) (crefs c) (cgone c).
 Definition set_out (c : conn) (cid : N) (act : bool) (out : list byte) : conn :=
   mkcn (chas c) (cdg c) (cidl c) (ctab c) (ctbuf c) cid act out (csock c) (cload c) (ccur c)
-       (cntag c) (cclosed c) (creqs c).
+       (cntag c) (cclosed c) (creqs c) (crefs c) (cgone c).
 Definition set_ntag (c : conn) (n : nat) : conn :=
   mkcn (chas c) (cdg c) (cidl c) (ctab c) (ctbuf c) (ccid c) (cact c) (cout c) (csock c) (cload c) (ccur c)
-       n (cclosed c) (creqs c).
+       n (cclosed c) (creqs c) (crefs c) (cgone c).
 (* con->_rctx exists now; ghost: request (n, id) goes to the reply context *)
 Definition set_req (c : conn) (n : nat) (id : list byte) : conn :=
   mkcn true (cdg c) (cidl c) (ctab c) (ctbuf c) (ccid c) (cact c) (cout c) (csock c) (cload c) (ccur c)
-       (cntag c) (cclosed c) (creqs c ++ [(n, id)]).
+       (cntag c) (cclosed c) (creqs c ++ [(n, id)]) (crefs c) (cgone c).
 
 Definition paylen (p : option (list byte)) : nat := match p with Some b => length b | None => 0 end.
 Definition paybytes (p : option (list byte)) : list byte := match p with Some b => b | None => [] end.
 
 (* replyConnection: mpt_outdata_reply (sendto) / mpt_stream_reply *)
 Definition tans (c : conn) (p : option (list byte)) : Z :=
-  if cclosed c then EBadArgument
+  if cclosed c || cgone c then EBadArgument
   else if cdg c then Z.of_nat (cidl c + paylen p)
   else if cact c then EBadArgument else 0%Z.
 
@@ -221,32 +246,47 @@ Definition cop_ok (o : op) : bool :=
 
 Definition wcall := (nat * option (list byte))%type.
 
+(* what an answer handler returns: the harness' waiter (tag > 0) returns -3 for an answer that starts with ff,
+   0 otherwise; the default handler of mpt_command_reserve (log_reply, tag 0) returns 0 *)
+Definition wret (tg : nat) (pay : list byte) : Z :=
+  if tg =? 0 then 0%Z else if (hd 0%N pay =? 255)%N then (-3)%Z else 0%Z.
+
+(* what the dispatcher returns after the answer handler ran: its return value (streamWrapper) / MissingBuffer for a
+   negative one, else 0 (datagram branch) *)
+Definition answer_ret (c : conn) (tg : nat) (pay : list byte) : Z :=
+  let z := wret tg pay in
+  if cdg c then (if (z <? 0)%Z then EMissingBuffer else 0%Z) else z.
+
 (* a reply-marked message: the answer handler registered under the id gets the payload, once *)
 Definition dispatch_answer (c : conn) (m : list byte) (e_invalid e_unknown : Z) : conn * Z * list wcall :=
   let id := unmark (firstn (cidl c) m) in
   match buf2id id with
   | Ok (v, _) =>
     match tfind (ctab c) v with
-    | Some (k, tg) => (set_tab c (trelease (ctab c) k), 0%Z, [(tg, Some (skipn (cidl c) m))])
+    | Some (k, tg) =>
+      let pay := skipn (cidl c) m in
+      (set_tab c (trelease (ctab c) k), answer_ret c tg pay, [(tg, Some pay)])
     | None => (c, e_unknown, [])
     end
   | _ => (c, e_invalid, [])
   end.
 
-(* mpt_connection_await *)
-Definition do_await (c : conn) : conn * Z :=
-  if negb (ccid c =? 0)%N || cact c then (c, EBadOperation)
+(* mpt_connection_await(con, ctl, arg): tag = the harness' waiter with this number, 0 = no handler given (the slot keeps
+   the default handler of mpt_command_reserve) *)
+Definition do_await (c : conn) (tag : nat) : conn * Z :=
+  if cgone c then (c, EBadArgument)
+  else if negb (ccid c =? 0)%N || cact c then (c, EBadOperation)
   else
-    match reserve (ctbuf c) (ctab c) (cidl c) (S (cntag c)) with
+    match reserve (ctbuf c) (ctab c) (cidl c) tag with
     | None => (c, EBadValue)
     | Some (tab, k, id) =>
       (mkcn (chas c) (cdg c) (cidl c) tab true id (cact c) (cout c) (csock c) (cload c) (ccur c)
-            (cntag c) (cclosed c) (creqs c), Z.of_nat (S k))
+            (cntag c) (cclosed c) (creqs c) (crefs c) (cgone c), Z.of_nat (S k))
     end.
 
 (* mpt_outdata_push (datagram backend) refuses while a received datagram waits for its dispatch
    (MPT_OUTFLAG(Received)): MPT_MESGERR(ActiveInput), nothing changes *)
-Definition push_blocked (c : conn) : bool := cdg c && ccur c.
+Definition push_blocked (c : conn) : bool := cdg c && ccur c && negb (cgone c).
 (* deregisterCommand in mpt_connection_push after a failed push: the answer handler registered under con->cid
    is called with NULL; it stays registered and con->cid stays *)
 Definition push_fail_calls (c : conn) : list (nat * option (list byte)) :=
@@ -257,7 +297,8 @@ Definition push_calls (c : conn) : list (nat * option (list byte)) :=
 
 (* mpt_connection_push(con, len, src) with len > 0 *)
 Definition do_push (c : conn) (pay : list byte) : conn * Z * bool :=
-  if push_blocked c then (c, EActiveInput, false)
+  if cgone c then (c, EBadArgument, false)
+  else if push_blocked c then (c, EActiveInput, false)
   else if negb (cact c) && negb (cidl c =? 0) then
     match id2buf (ccid c) (cidl c) with
     | Ok (bs, _) => (set_out c (ccid c) true (cout c ++ bs ++ pay), Z.of_nat (length pay), false)
@@ -268,6 +309,7 @@ Definition do_push (c : conn) (pay : list byte) : conn * Z * bool :=
 
 (* mpt_connection_push(con, 0, 0): the message is complete *)
 Definition do_finish (c : conn) : conn * Z * list (list byte) * bool :=
+  if cgone c then (c, EBadArgument, [], false) else
   if push_blocked c then (c, EActiveInput, [], false) else
   let '(c1, f) :=
     if negb (cact c) && negb (cidl c =? 0) then
@@ -279,14 +321,18 @@ Definition do_finish (c : conn) : conn * Z * list (list byte) * bool :=
     else (c, false) in
   (set_out c1 0%N false [], if cdg c then Z.of_nat (length (cout c1)) else 0%Z, [cout c1], f).
 
-(* mpt_stream_sync (idlen > 0): messages are processed while handlers are waiting *)
+(* the end of mpt_stream_sync: more than half of the slots still wait -> their number; else compress the table *)
+Definition sync_end (c : conn) (count : nat) (wc : list wcall) : conn * Z * list wcall :=
+  if Nat.div2 (length (ctab c)) <? count then (c, Z.of_nat count, wc)
+  else let t := tactive (ctab c) in (set_tab c t, Z.of_nat (length t), wc).
+
+(* mpt_stream_sync (idlen > 0): messages are processed while handlers are waiting; a handler that returns a
+   negative value ends the loop *)
 Fixpoint sync_loop (fuel : nat) (c : conn) (count : nat) (wc : list wcall) : conn * Z * list wcall :=
   match fuel with
   | 0 => (c, 0%Z, wc)
   | S fuel' =>
-    if count =? 0 then
-      (* compress waiting return commands *)
-      let t := tactive (ctab c) in (set_tab c t, Z.of_nat (length t), wc)
+    if count =? 0 then sync_end c 0 wc
     else
       (* message data: current, or poll + receive *)
       let oc := if ccur c then Some c
@@ -305,11 +351,16 @@ Fixpoint sync_loop (fuel : nat) (c : conn) (count : nat) (wc : list wcall) : con
               let c2 := set_in c1 (csock c1) rest (negb (is_nil rest)) in
               match tfind (ctab c1) v with
               | Some (k, tg) =>
-                sync_loop fuel' (set_tab c2 (trelease (ctab c2) k)) (count - 1)
-                          (wc ++ [(tg, Some (skipn (cidl c1) m))])
+                let c3 := set_tab c2 (trelease (ctab c2) k) in
+                let wc' := wc ++ [(tg, Some (skipn (cidl c1) m))] in
+                if (wret tg (skipn (cidl c1) m) <? 0)%Z then sync_end c3 (count - 1) wc'
+                else sync_loop fuel' c3 (count - 1) wc'
               | None =>
                 match tfind (ctab c1) 0%N with
-                | Some (_, tg) => sync_loop fuel' c2 count (wc ++ [(tg, Some (skipn (cidl c1) m))])
+                | Some (_, tg) =>
+                  let wc' := wc ++ [(tg, Some (skipn (cidl c1) m))] in
+                  if (wret tg (skipn (cidl c1) m) <? 0)%Z then sync_end c2 count wc'
+                  else sync_loop fuel' c2 count wc'
                 | None => sync_loop fuel' c2 count wc
                 end
               end
@@ -349,7 +400,10 @@ Fixpoint dsync_loop (fuel : nat) (c : conn) (wc : list wcall) : conn * Z * list 
           | Ok (v, _) =>
             match tfind (ctab c2) v with
             | Some (k, tg) =>
-              dsync_loop fuel' (set_tab c2 (trelease (ctab c2) k)) (wc ++ [(tg, Some (skipn (cidl c1) m))])
+              let c3 := set_tab c2 (trelease (ctab c2) k) in
+              let wc' := wc ++ [(tg, Some (skipn (cidl c1) m))] in
+              if (wret tg (skipn (cidl c1) m) <? 0)%Z then (c3, 0%Z, wc')
+              else dsync_loop fuel' c3 wc'
             | None => (c2, EBadValue, wc)
             end
           | _ => (c2, EBadValue, wc)
@@ -360,6 +414,7 @@ Fixpoint dsync_loop (fuel : nat) (c : conn) (wc : list wcall) : conn * Z * list 
 
 Definition do_sync (c : conn) : conn * Z * list wcall :=
   if cidl c =? 0 then (c, 0%Z, [])
+  else if cgone c then (c, EBadArgument, [])
   else if cdg c then dsync_loop (S (S (length (csock c)))) c []
   else if is_nil (ctab c) then (c, 0%Z, [])
   else sync_loop (S (S (length (cload c) + length (csock c)))) c (length (tactive (ctab c))) [].
@@ -380,8 +435,86 @@ Definition nofault (r : cret) wc ws : cres := mkcr r wc ws false.
 
 (* mpt_connection_fini before the reply context is released: backend closed, mpt_command_clear *)
 Definition close_conn (c : conn) : conn * list wcall :=
-  (mkcn (chas c) (cdg c) (cidl c) [] (ctbuf c) 0%N false [] (csock c) (cload c) (ccur c) (cntag c) true (creqs c),
+  (mkcn (chas c) (cdg c) (cidl c) [] (ctbuf c) 0%N false [] (csock c) (cload c) (ccur c) (cntag c) true (creqs c) (crefs c) (cgone c),
    map (fun e => (match wetag e with Some t => t | None => 0 end, @None (list byte))) (tactive (ctab c))).
+
+Definition set_refs (c : conn) (n : nat) : conn :=
+  mkcn (chas c) (cdg c) (cidl c) (ctab c) (ctbuf c) (ccid c) (cact c) (cout c) (csock c) (cload c) (ccur c)
+       (cntag c) (cclosed c) (creqs c) n (cgone c).
+
+(* await(ctl, tag) + push(pay) + push(0, 0): one outgoing request in one piece; bump = the harness used a new tag *)
+Definition await_push_finish (c : conn) (tag : nat) (bump : bool) (pay : list byte) : conn * cres :=
+  let '(c1, ra) := do_await c tag in
+  let c1 := if bump then set_ntag c1 (S (cntag c1)) else c1 in
+  let cid := ccid c1 in
+  let '(c2, p1, f1) := if is_nil pay then (c1, 0%Z, false) else do_push c1 pay in
+  let '(c3, p2, ws, f2) := do_finish c2 in
+  (c3, mkcr (RAw ra cid p1 (Some p2)) ((if is_nil pay then [] else push_calls c1) ++ push_calls c2) ws (f1 || f2)).
+
+(* calls of mpt_command_clear: every waiting handler gets NULL *)
+Definition clear_calls (c : conn) : list wcall :=
+  map (fun e => (match wetag e with Some t => t | None => 0 end, @None (list byte))) (tactive (ctab c)).
+
+(* next(POLLHUP) on the datagram backend: mpt_outdata_close (socket closed, buffer released, state flags cleared);
+   wait table, current id and reply context stay *)
+Definition hup_conn (c : conn) : conn :=
+  mkcn (chas c) (cdg c) (cidl c) (ctab c) (ctbuf c) (ccid c) false [] (csock c) [] false
+       (cntag c) (cclosed c) (creqs c) (crefs c) true.
+
+(* mpt_stream_dopen on the stream the connection already has (second mpt_connection_assign of a stream socket):
+   the read queue is dropped with the old descriptor; wait table, current id and reply context stay *)
+Definition reopen_conn (c : conn) : conn := set_in c [] [] false.
+
+(* mpt_connection_close + the new backend (AS PATCHED by docs/C12_close_stream_dangling.diff: a closed stream is released).
+   The reply context is released by the caller of this function (cstep).
+   MPT_OUTFLAG(Active) is cleared by mpt_outdata_close only: closing a STREAM in the middle of an outgoing message
+   (possible through mpt_connection_assign(con, NULL) alone) leaves the flag set - as is: every later assign / open is refused *)
+Definition reset_conn (c : conn) (k : rkind) : conn :=
+  mkcn false (match k with KDgram => true | KStream => false | KNone => cdg c end) (cidl c) [] (ctbuf c) 0%N
+       (cact c && negb (cdg c) && negb (cgone c)) []
+       [] [] false (cntag c) (cclosed c) (creqs c) (crefs c) (match k with KNone => true | _ => false end).
+
+Definition reset_ret (k : rkind) (h : rhow) : Z :=
+  match h, k with
+  | HPropSock, _ | HPropStr, _ => 0%Z
+  | HAssign, KNone => 0%Z
+  | HAssign, _ => 1%Z
+  | HOpen, KStream => 7%Z      (* socket flags Read | Write | Stream *)
+  | HOpen, KDgram => 3%Z
+  | HOpen, KNone => 0%Z
+  end.
+
+Definition is_assign_null (k : rkind) (h : rhow) : bool :=
+  match k, h with KNone, HAssign => true | _, _ => false end.
+
+(* a stream socket for a connection that has an open stream: the stream is re-opened, nothing else is touched *)
+Definition is_reopen (c : conn) (k : rkind) (h : rhow) : bool :=
+  match k, h with
+  | KStream, HAssign | KStream, HPropSock => negb (cdg c) && negb (cgone c)
+  | _, _ => false
+  end.
+
+(* remoteConv / remote_infile *)
+Definition conv_res (c : conn) (t : ctype) : cret :=
+  match t with
+  | TIn | TMeta => RCv (Some 1%Z) 1
+  | TFmt => RCv None 5
+  | TSock => RCv None (if cgone c then 7 else 6)
+  | TObj => RCv None 2
+  | TOut => RCv None 3
+  | TLog => RCv None 4
+  | TBad => RCv (Some EBadType) 0
+  end.
+
+(* remoteProperty: "" = the socket (1 iff a datagram socket is active), "color" (set at creation, never changed here) *)
+Definition prop_res (c : conn) (color : bool) : cret :=
+  if color then RGp 1%Z 1 else RGp (if cdg c && negb (cgone c) then 1%Z else 0%Z) 0.
+
+(* value of next(POLLOUT) / next(POLLHUP) *)
+Definition next_val (c : conn) (hup : bool) : option Z :=
+  if cgone c then Some (-3)%Z
+  else if cdg c then Some (if hup then (-2)%Z else 0%Z)
+  else None.
 
 Section Conn.
   Variable RW : Type.
@@ -462,7 +595,12 @@ Section Conn.
 
   (* next(POLLIN) while readable + dispatch *)
   Definition do_dispatch (r : RW) (c : conn) (h : option (list hact * Z)) : RW * conn * cres :=
-    if cdg c then
+    if cgone c then
+      (* no backend: next() = -3 (called by the harness when its end is readable), dispatch = BadArgument
+         (Retry if the flag of an outgoing message is still set) *)
+      (r, c, mkcr (RDp (Some (if is_nil (csock c) then None else Some (-3)%Z)) (if cact c then EventRetry else EBadArgument) None [])
+                  [] [] false)
+    else if cdg c then
       (* remoteNext: one datagram, unless one is waiting (Received) or a message is being composed *)
       let '(c1, nx) := dg_next c in
       if cact c1 then (r, c1, mkcr (RDp (Some nx) EventRetry None []) [] [] false)
@@ -503,15 +641,10 @@ Section Conn.
         match o with
         | CDp acts code => let '(r1, c1, res) := do_dispatch r c (Some (acts, code)) in ((r1, c1), res)
         | CDp0 => let '(r1, c1, res) := do_dispatch r c None in ((r1, c1), res)
-        | CAw pay =>
-          let '(c1, ra) := do_await c in
-          let c1 := set_ntag c1 (S (cntag c1)) in
-          let cid := ccid c1 in
-          let '(c2, p1, f1) := if is_nil pay then (c1, 0%Z, false) else do_push c1 pay in
-          let '(c3, p2, ws, f2) := do_finish c2 in
-          ((r, c3), mkcr (RAw ra cid p1 (Some p2)) ((if is_nil pay then [] else push_calls c1) ++ push_calls c2) ws (f1 || f2))
+        | CAw pay => let '(c3, res) := await_push_finish c (S (cntag c)) true pay in ((r, c3), res)
+        | CAw0 pay => let '(c3, res) := await_push_finish c 0 false pay in ((r, c3), res)
         | CPs pay =>
-          let '(c1, ra) := do_await c in
+          let '(c1, ra) := do_await c (S (cntag c)) in
           let c1 := set_ntag c1 (S (cntag c1)) in
           let cid := ccid c1 in
           let '(c2, p1, f1) := do_push c1 pay in
@@ -520,12 +653,43 @@ Section Conn.
           let '(c1, p2, ws, f) := do_finish c in ((r, c1), mkcr (RPe p2) (push_calls c) ws f)
         | CSy => let '(c1, z, wc) := do_sync c in ((r, c1), nofault (RSy z) wc [])
         | CCl =>
+          if 0 <? crefs c then ((r, set_refs c (crefs c - 1)), nofault RCl [] [])
+          else
           (* mpt_connection_fini: close the backend, mpt_command_clear, release the reply context *)
           let '(c0, wc) := close_conn c in
           if chas c then
             let '(r1, ob) := prim r c0 OUnref None in
             ((r1, c0), mkcr RCl wc [] (is_fault ob))
           else ((r, c0), nofault RCl wc [])
+        | CRf => ((r, set_refs c (S (crefs c))), nofault (RRf (S (S (crefs c)))) [] [])
+        | CNo => (rc, nofault (RNx (next_val c false)) [] [])
+        | CNh =>
+          ((r, if cdg c && negb (cgone c) then hup_conn c else c), nofault (RNx (next_val c true)) [] [])
+        | CLg msg =>
+          (* the first push decides (an error is returned), the last one completes the message *)
+          let '(c1, p1, f1) := do_push c msg in
+          if (p1 <? 0)%Z then ((r, c1), mkcr (RLg p1) (push_calls c) [] f1)
+          else let '(c2, p2, ws, f2) := do_finish c1 in ((r, c2), mkcr (RLg 1%Z) (push_calls c1) ws (f1 || f2))
+        | CRs k h =>
+          (* refused while a message is being composed - except mpt_connection_assign(con, NULL), which closes first *)
+          if cact c && negb (is_assign_null k h) then (rc, nofault (RRs EBadOperation) [] [])
+          else if is_reopen c k h then
+            match h with
+            | HPropSock | HPropStr =>
+              (* mpt_connection_set: mpt_command_clear after the successful assignment *)
+              ((r, set_tab (reopen_conn c) []), nofault (RRs 0%Z) (clear_calls c) [])
+            | _ => ((r, reopen_conn c), nofault (RRs 2%Z) [] [])
+            end
+          else
+            (* mpt_connection_close: backend closed, waiting handlers get NULL, the reply context is released
+               (its default reply finds no backend) *)
+            let c0 := reset_conn c k in
+            if chas c then
+              let '(r1, ob) := prim r (hup_conn c) OUnref None in
+              ((r1, c0), mkcr (RRs (reset_ret k h)) (clear_calls c) [] (is_fault ob))
+            else ((r, c0), nofault (RRs (reset_ret k h)) (clear_calls c) [])
+        | CCv t => (rc, nofault (conv_res c t) [] [])
+        | CGp color => (rc, nofault (prop_res c color) [] [])
         | _ => (rc, nofault RX [] [])
         end
     end.
@@ -544,7 +708,7 @@ Section Conn.
 End Conn.
 
 Definition conn_init (dg : bool) (idl : nat) : conn :=
-  mkcn false dg idl [] false 0%N false [] [] [] false 0 false [].
+  mkcn false dg idl [] false 0%N false [] [] [] false 0 false [] 0 false.
 
 (* ---------------- the two instances ---------------- *)
 Definition set_orc (w : world) (orc : list Z) : world :=
